@@ -1,6 +1,7 @@
 import WtfModel.Model.Search
 import WtfModel.Model.NormQ
 import WtfModel.Model.Legacy0
+import WtfModel.Model.Tfidf
 import WtfModel.Gen.Constants
 import Driver.Util
 
@@ -30,6 +31,8 @@ structure DS where
   cb : Array Float := #[]
   tf : Option (List (Nat × Float)) := none
   fz : List (Nat × Int) := []
+  lg : List (Nat × Float) := []    -- math.Log(N/dc) table for the TF-IDF model
+  tfIdx : Option (Tfidf.Index Float) := none   -- model TF-IDF index, built once per case
 
 def floatList? (s : String) : Option (List Float) :=
   if s == "-" then some [] else (s.splitOn ",").mapM floatOf?
@@ -49,7 +52,12 @@ def tuning (d : DS) : Tuning Float :=
     normQ := fun _ => d.nq
     nlp := fun _ => { actions := d.actions, targets := d.targets, keywords := d.keywords, enhanced := d.enhanced,
                       intentBoost := fun i => d.ib.getD i 1.0, cascade := fun i => d.cb.getD i 1.0 }
-    tfidf := d.tf.map (fun l => fun _ => l)
+    -- the re-ranker is the MODEL's TF-IDF (Model/Tfidf.lean) whenever the real database has a searcher;
+    -- the oracle `tf` line only says whether one exists (and is compared separately by the `tfidf` op)
+    tfidf := match d.tf, d.tfIdx with
+      | some _, some idx => some (fun nq => Tfidf.search d.ri Float.sqrt 0.01 idx nq d.db.size)
+      | some l, none => some (fun _ => l)
+      | none, _ => none
     fuzzySort := fun ms =>
       -- Go's order, accepted only if it is a permutation of the model's matches, sorted by score
       let sameSet := d.fz.length == ms.length && d.fz.all (fun x => ms.contains x) && ms.all (fun x => d.fz.contains x)
@@ -60,6 +68,13 @@ def fmtResults (r : Except Fuzzy.Panic (List (Nat × Float))) : String :=
   match r with
   | .error _ => "panic:index-out-of-range"
   | .ok l => l.foldl (fun acc (d, s) => acc ++ s!" {d} {fmtFloat s}") s!"res {l.length}"
+
+def logOf (d : DS) : Nat → Nat → Float := fun _ dc => ((d.lg.find? (·.1 == dc)).map (·.2)).getD 0.0
+
+def ensureIdx (d : DS) : DS :=
+  match d.tfIdx with
+  | some _ => d
+  | none => { d with tfIdx := some (Tfidf.build (S := Float) d.ri (logOf d) Float.sqrt d.db.toList) }
 
 def step (d : DS) (l : String) : DS × String :=
   match words l with
@@ -113,8 +128,23 @@ def step (d : DS) (l : String) : DS × String :=
       let o : Opts Float := { limit := lim, boosts := bo, pipelineOnly := boolOf po, pipelineBoost := pb, useFuzzy := boolOf uf,
                               fuzzyThreshold := thr, useNLP := boolOf un, topTermsCap := cap, allPlatforms := boolOf ap,
                               platforms := pls, noCross := boolOf nc }
+      let d := if o.useNLP then ensureIdx d else d
       (d, fmtResults (search (tuning d) d.db.toList q o))
     | _, _, _, _, _, _, _ => (d, "bad-op")
+  | ["lg", dc, v] =>
+    match natOf? dc, floatOf? v with
+    | some dc, some v => ({ d with lg := (dc, v) :: d.lg }, "ok")
+    | _, _ => (d, "bad-op")
+  | ["tfidf", h] =>
+    -- the model's own TF-IDF ranking (Model/Tfidf.lean) for a query, all commands
+    match Bytes.ofHex h with
+    | some q =>
+      let d := ensureIdx d
+      let r := match d.tfIdx with
+        | some idx => Tfidf.search d.ri Float.sqrt 0.01 idx q d.db.size
+        | none => []
+      (d, r.foldl (fun acc (i, s) => acc ++ s!" {i} {fmtFloat s}") s!"tf {r.length}")
+    | none => (d, "bad-op")
   | ["bufcap", t, l] =>
     match intOf? t, intOf? l with
     | some t, some l => (d, toString (Legacy.resultsBufferCap Gen.Constants.ResultsBufferMultiplier t l))
